@@ -5,16 +5,16 @@ import Fbr.Lemmas.PtStepTr
 
 namespace Fbr.PtRefs
 
-theorem stepCap_tr (e : Env) (s : St) (sp : Spec) (hd : Option Nat) (op : Op) :
-    Tr e op.isDestroy s sp (stepCap e s hd op).1 (sp.step op (stepCap e s hd op).2) := by
+theorem stepCap_tr {nf : Bool} (e : Env) (s : St) (sp : Spec) (hd : Option Nat) (op : Op) (hf : nf = true → op.NoFh) :
+    Tr e nf op.isDestroy s sp (stepCap e s hd op).1 (sp.step op (stepCap e s hd op).2) := by
   unfold stepCap
-  have t0 : Tr e false s sp { s with cap := hd.map (s.fds + ·) } sp := Tr.frame rfl rfl rfl rfl rfl rfl
-  have h := step_tr e { s with cap := hd.map (s.fds + ·) } sp op
+  have t0 : Tr e nf false s sp { s with cap := hd.map (s.fds + ·) } sp := Tr.frame rfl rfl rfl rfl rfl rfl ⟨rfl, rfl, rfl⟩
+  have h := step_tr (nf := nf) e { s with cap := hd.map (s.fds + ·) } sp op hf
   split
   rename_i s1 r heq
   rw [heq] at h
-  have h2 : Tr e (op.isDestroy || false) s sp _ _ :=
-    Tr.trans (Tr.trans t0 h) (Tr.frame (s' := { s1 with cap := none }) rfl rfl rfl rfl rfl rfl)
+  have h2 : Tr e nf (op.isDestroy || false) s sp _ _ :=
+    Tr.trans (Tr.trans t0 h) (Tr.frame (s' := { s1 with cap := none }) rfl rfl rfl rfl rfl rfl ⟨rfl, rfl, rfl⟩)
   simpa using h2
 
 /-- does the history contain a `destroy`? -/
@@ -22,14 +22,22 @@ def hasDestroy : List (Option Nat × Op) → Bool
   | [] => false
   | (_, op) :: r => op.isDestroy || hasDestroy r
 
-theorem run_tr (e : Env) (h : List (Option Nat × Op)) (s : St) (sp : Spec) :
-    Tr e (hasDestroy h) s sp (run e s h).1 (sp.run h (run e s h).2) := by
+/-- no host answer of the history carries a file handle (`inode_file_handles` off) -/
+def NoHandles (h : List (Option Nat × Op)) : Prop := ∀ x ∈ h, x.2.NoFh
+
+theorem run_trN {nf : Bool} (e : Env) (h : List (Option Nat × Op)) (hf : nf = true → NoHandles h) (s : St) (sp : Spec) :
+    Tr e nf (hasDestroy h) s sp (run e s h).1 (sp.run h (run e s h).2) := by
   induction h generalizing s sp with
   | nil => exact Tr.rfl' s sp
   | cons x r ih =>
     obtain ⟨hd, op⟩ := x
     simp only [run, hasDestroy]
-    exact Tr.trans (stepCap_tr e s sp hd op) (ih _ _)
+    exact Tr.trans (stepCap_tr e s sp hd op (fun hn => hf hn (hd, op) List.mem_cons_self))
+      (ih (fun hn y hy => hf hn y (List.mem_cons_of_mem _ hy)) _ _)
+
+theorem run_tr (e : Env) (h : List (Option Nat × Op)) (s : St) (sp : Spec) :
+    Tr e false (hasDestroy h) s sp (run e s h).1 (sp.run h (run e s h).2) :=
+  run_trN e h (fun x => by cases x) s sp
 
 theorem good_fresh : Good St.fresh Spec.init :=
   ⟨by intro i _; simp [St.fresh, Spec.init], by intro i d h; simp [St.fresh] at h⟩
